@@ -186,7 +186,14 @@ func instantiateGenericModel(
 		if tParamNode.Kind.IsBuiltin() {
 			return tParamNode.Id.Name
 		}
-		return tParamNode.Data.(*metadata.TypeParamDeclMeta).Name
+		// Type parameter nodes carry their declaration by value (see conditionalEnsureTypeParamNode)
+		switch data := tParamNode.Data.(type) {
+		case metadata.TypeParamDeclMeta:
+			return data.Name
+		case *metadata.TypeParamDeclMeta:
+			return data.Name
+		}
+		return tParamNode.Id.Name
 	})
 
 	if modelNameTransformer != nil {
